@@ -346,7 +346,7 @@ pub unsafe fn s_clone_send<RW: QueueRW<Pay>>(n: usize, k: usize, mpmc: bool) {
     let tx2 = tx.clone();
     let a1 = w.observe();
     assert!(a1.writers == a0.writers + 1, "C07/C12: clone registers exactly one more sender");
-    assert!(!is_uni(tx.state.get()) && !is_uni(tx2.state.get()), "C12: after a clone neither handle may use the single-writer path");
+    assert!(!is_uni(tx.state.get()) && !is_uni(tx2.state.get()), "C01/C02/C03/C12: after a clone neither handle may use the single-writer path (a plain store to the claim counter would race with the other sender's compare-exchange)");
     assert!(w.q.manager.vf_ntokens() == nt0 + 1 && w.q.manager.vf_has_token(tx2.token) && tx2.token != tx.token, "C16: the clone gets its own registered token");
     assert!(MemoryManager::vf_token_epoch(tx2.token) == w.q.manager.vf_epoch(), "C16: new token starts at the current epoch");
     assert!(a1.head == a0.head && a1.tail_cache == a0.tail_cache && same_except_slot(&a0, &a1, usize::MAX) && same_streams(&a0, &a1));
@@ -394,7 +394,7 @@ pub unsafe fn s_clone_recv<RW: QueueRW<Pay>>(n: usize, k: usize, mpmc: bool) {
     let rx2 = rx.clone();
     let a1 = w.observe();
     assert!(rx.reader.vf_consumers() == a0.ncons[i] + 1, "C11/C12: clone registers exactly one more consumer on its stream");
-    assert!(!rx.reader.vf_is_single_state() && !rx2.reader.vf_is_single_state(), "C12: after a clone neither handle may use the sole-consumer path");
+    assert!(!rx.reader.vf_is_single_state() && !rx2.reader.vf_is_single_state(), "C01/C12: after a clone neither handle may use the sole-consumer path (a plain store to the cursor would race with the other consumer's compare-exchange)");
     assert!(rx2.reader.vf_pos_ptr() == rx.reader.vf_pos_ptr(), "C01: the clone shares the stream's cursor");
     assert!(w.q.manager.vf_ntokens() == nt0 + 1 && w.q.manager.vf_has_token(rx2.token) && rx2.token != rx.token, "C16: the clone gets its own registered token");
     assert!(a1.head == a0.head && a1.writers == a0.writers && a1.tail_cache == a0.tail_cache && same_except_slot(&a0, &a1, usize::MAX));
